@@ -169,7 +169,9 @@ def run(R):
     ag = ctx(R, SV + '.aggregate')
     ast_stores = [n for n in ag.cfg.nodes if n.kind == 'stmt' and isinstance(n.ast, ast.Assign)
                   and any(isinstance(t, ast.Subscript) and self_attr(t.value, 'agg_sv') for t in n.ast.targets)]
-    R.need(ast_stores, 'aggregate: no store into agg_sv')
+    if not ast_stores:
+        R.fail('C18.PRV.1', ag.qual + ' :: entry-wise maximum', ag.qual, 'def aggregate', 'aggregate() does not merge entry by entry with max(): a vector heard later '
+               'can lower the aggregate of the suppression period', site(ag, ag.f.node))
     for st in ast_stores:
         tgt = [t for t in st.ast.targets if isinstance(t, ast.Subscript)][0]
         key = ast.unparse(tgt.slice)
